@@ -192,6 +192,7 @@ func (sb *seqbag) AppendSeqIdentifier(identifier string, right bool) {
 				seq.name = identifier + seq.name
 			}
 		}
+		sb.reindex()
 	}
 }
 
@@ -285,12 +286,22 @@ func (sb *seqbag) CleanNames(namemap map[string]string) {
 			namemap[old] = seq.name
 		}
 	}
+	sb.reindex()
 }
 
 // Removes all the sequences from the seqbag
 func (sb *seqbag) Clear() {
 	sb.seqmap = make(map[string]*seq)
 	sb.seqs = make([]*seq, 0, 100)
+}
+
+// reindex rebuilds the name index from the current sequence names.
+// It must be called after sequence names have been modified in place.
+func (sb *seqbag) reindex() {
+	sb.seqmap = make(map[string]*seq, len(sb.seqs))
+	for _, seq := range sb.seqs {
+		sb.seqmap[seq.name] = seq
+	}
 }
 
 func (sb *seqbag) CloneSeqBag() (SeqBag, error) {
@@ -808,6 +819,7 @@ func (sb *seqbag) Rename(namemap map[string]string) {
 		// 	io.PrintMessage("Sequence " + a.seqs[seq].name + " not present in the map file")
 		// }
 	}
+	sb.reindex()
 }
 
 // Shuffle the order of the sequences in the alignment
@@ -835,6 +847,7 @@ func (sb *seqbag) RenameRegexp(regex, replace string, namemap map[string]string)
 		namemap[sb.seqs[seq].name] = newname
 		sb.seqs[seq].name = newname
 	}
+	sb.reindex()
 	return nil
 }
 
@@ -1081,6 +1094,8 @@ func (sb *seqbag) TrimNames(namemap map[string]string, size int) error {
 	for _, v := range namemap {
 		shortmap[v] = true
 	}
+	// The name index is rebuilt once all names are changed (also if we stop on an error)
+	defer sb.reindex()
 	for _, seq := range sb.seqs {
 		newname, ok := namemap[seq.Name()]
 		if !ok {
@@ -1107,9 +1122,7 @@ func (sb *seqbag) TrimNames(namemap map[string]string, size int) error {
 			shortmap[newname] = true
 			namemap[seq.Name()] = newname
 		}
-		delete(sb.seqmap, seq.name)
 		seq.name = newname
-		sb.seqmap[seq.name] = seq
 	}
 
 	return nil
@@ -1132,6 +1145,7 @@ func (sb *seqbag) TrimNamesAuto(namemap map[string]string, curid *int) (err erro
 		}
 		seq.name = newname
 	}
+	sb.reindex()
 	return
 }
 
